@@ -32,6 +32,7 @@ type Obligation struct {
 	batch     bool
 	pins      []string // extra constraints fixing a concretised model
 	weakened  bool     // queryFile is the variant without quantified assumptions
+	fullQuery string   // the complete query when queryFile is a weakened variant
 	QueryKB int
 	ctx     *FnCtx
 }
@@ -193,7 +194,57 @@ func (c *FnCtx) assume(st *State, cond string) {
 	if cond == "true" {
 		return
 	}
+	// one assertion per conjunct: a quantified conjunct can then be left out
+	// of a weakened query without losing its ground neighbours
+	if parts := topConjuncts(cond); len(parts) > 1 && (strings.Contains(cond, "(forall ") || strings.Contains(cond, "(exists ")) {
+		for _, p := range parts {
+			c.assume(st, p)
+		}
+		return
+	}
 	c.emit("(assert " + implies(st.guard, cond) + ")")
+}
+
+// topConjuncts splits "(and a b ...)" into its arguments (nil otherwise).
+func topConjuncts(t string) []string {
+	if !strings.HasPrefix(t, "(and ") || !strings.HasSuffix(t, ")") {
+		return nil
+	}
+	body := t[5 : len(t)-1]
+	var out []string
+	depth, start := 0, 0
+	for i := 0; i < len(body); i++ {
+		switch body[i] {
+		case '(':
+			depth++
+		case ')':
+			depth--
+			if depth < 0 {
+				return nil
+			}
+		case ' ':
+			if depth == 0 {
+				if i > start {
+					out = append(out, body[start:i])
+				}
+				start = i + 1
+			}
+		case '|':
+			// quoted symbol: skip to the closing bar
+			j := strings.IndexByte(body[i+1:], '|')
+			if j < 0 {
+				return nil
+			}
+			i += j + 1
+		}
+	}
+	if depth != 0 {
+		return nil
+	}
+	if start < len(body) {
+		out = append(out, body[start:])
+	}
+	return out
 }
 
 func (c *FnCtx) assumeRaw(cond string) {
